@@ -6,6 +6,26 @@ from props import kv_shared as K
 ID = "C12"
 MODULES = ["IoraModel.Props.C12"]
 OBLIGATIONS = [
+    {"id": "C12_gen_limits", "theorem": "Iora.C12.gen_limits_ok", "kind": "proved",
+     "statement": "Gen obligation: the limits extracted from kvstore.hpp satisfy Lim.OK (load re-admits every key/value/record the API admits; widths fit)"},
+    {"id": "C12_gen_format", "theorem": "Iora.C12.gen_format_ok", "kind": "proved",
+     "statement": "Gen obligation: op letters, field widths, snapshot versions, sentinel, and the two load() shape facts (torn tail cut, single expiry sweep) are the ones the model hard-wires"},
+    {"id": "C12_M1", "theorem": "Iora.C12.M1_refinement", "kind": "proved",
+     "statement": "refinement: for every config, start time, cache-victim choices and history (incl. clock advances, eviction callbacks with any key/generation, compaction, close/reopen) abs(run) = reference map after the same history, every result allowed by the reference map, invariants hold"},
+    {"id": "C12_M1_step", "theorem": "Iora.Kv.step_ok", "kind": "proved",
+     "statement": "one-step simulation for every operation from every state satisfying the invariant (cache coherence, _expiry within _kv, files replay to memory)"},
+    {"id": "C12_M1_reads", "theorem": "Iora.C12.M1_reads", "kind": "proved",
+     "statement": "exists / ttl / getBatch / keys / keysWithPrefix / size equal the reference-map reads at the read's now in every reachable state"},
+    {"id": "C12_M2_evict", "theorem": "Iora.C12.M2_eviction_invisible", "kind": "proved",
+     "statement": "the eviction callback (STALE/RE-ARM/EVICT) for any key and timer generation leaves the abstract state unchanged and never removes a live key"},
+    {"id": "C12_M2_clock", "theorem": "Iora.C12.M2_clock", "kind": "proved",
+     "statement": "a clock advance of any size prunes exactly the entries whose expiry has passed, with no eviction step"},
+    {"id": "C12_M3", "theorem": "Iora.C12.M3_overwrite", "kind": "proved",
+     "statement": "after set k v the key holds exactly v with no expiry whatever it held before; get returns v byte for byte"},
+    {"id": "C12_M4", "theorem": "Iora.C12.M4_restart", "kind": "proved",
+     "statement": "clean close + reopen at the current time (after any clock advance) preserves the abstract state and the invariants"},
+    {"id": "C12_M5", "theorem": "Iora.C12.M5_compaction", "kind": "proved",
+     "statement": "compaction changes nothing visible, leaves no expired key in memory, and the new snapshot alone holds exactly the live entries"},
 ]
 ANCHOR_FILES = ["include/iora/storage/kvstore.hpp", "include/iora/core/timing_wheel.hpp"]
 HARNESS = "harness/c12_kv.cpp"
@@ -75,7 +95,8 @@ def run(ctx: Ctx):
     if ok_build:
         ctx.audit(MODULES, OBLIGATIONS)
         if not quick:
-            ctx.leanchecker(MODULES + ["IoraModel.Lemmas.KvStore", "IoraModel.Model.KvStore", "IoraModel.Model.KvLog", "IoraModel.Model.KvMap"])
+            ctx.leanchecker(MODULES + ["IoraModel.Lemmas.KvFiles", "IoraModel.Lemmas.KvStore", "IoraModel.Lemmas.KvLog", "IoraModel.Lemmas.KvMap",
+                                       "IoraModel.Model.KvSpec", "IoraModel.Model.KvStore", "IoraModel.Model.KvLog", "IoraModel.Model.KvMap"])
     else:
         ctx.cov["obligations"] = len(OBLIGATIONS)
     # memcpy(value.data(), ptr, 0) on an empty vector in load() passes a null pointer with length 0: flagged by UBSan's
@@ -83,7 +104,7 @@ def run(ctx: Ctx):
     hb = ctx.build_harness(HARNESS, sanitize=True, flags=["-fno-sanitize=nonnull-attribute"])
     dist = {}
     opdist = {}
-    if hb and os.path.exists(ctx.model_bin()):
+    if hb:
         kvwork = os.path.join(ctx.work, "kvdirs")
         os.makedirs(kvwork, exist_ok=True)
         cases = load_corpus() + gen_cases(ctx, rng.fork("gen"), quick)
